@@ -214,6 +214,7 @@ func (rd *c08Round) build() *c08RT {
 		if la := c08Build(ld.Attrs); len(la) > 0 {
 			e.SetAttrs(la...)
 		}
+		e.SetContextKeys(c08CtxKey)
 		rt.ents = append(rt.ents, e)
 		// (handler attributes deliberately not in key order; c08slog marks the records of this entry point)
 		sl := logslog.New(slog.NewSlogHandler(e, &slog.HandlerOptions{NoColor: ld.Mode != "color", JSON: ld.Mode == "json", Level: slog.Level(ld.Level)})).
